@@ -408,8 +408,25 @@ func runQuery(text string, timeoutSec int, requireAll bool) SolverResult {
 	per := map[string]string{}
 	var final *res
 	var errs []string
+	var grace <-chan time.Time
 	for i := 0; i < len(solvers); i++ {
-		r := <-ch
+		var r res
+		graceOver := false
+		select {
+		case r = <-ch:
+		case <-grace:
+			graceOver = true
+		}
+		if graceOver {
+			// thorough tier: the other solvers had a few more seconds to contradict the first definite answer
+			cancel()
+			go func(k int) {
+				for j := 0; j < k; j++ {
+					<-ch
+				}
+			}(len(solvers) - i)
+			break
+		}
 		per[r.solver] = r.status
 		solverStat.Lock()
 		solverStat.secs[r.solver] += r.secs
@@ -421,6 +438,9 @@ func runQuery(text string, timeoutSec int, requireAll bool) SolverResult {
 			if final == nil {
 				rr := r
 				final = &rr
+				if requireAll {
+					grace = time.After(3 * time.Second)
+				}
 				if !requireAll {
 					cancel()
 					// drain remaining
